@@ -1,5 +1,5 @@
 From Coq Require Import List String.
-From Bexpr Require Import Base Ast Unicode Peg GoGrammar PegGrammar ActionsPinned C20 Canon.
+From Bexpr Require Import Base Ast Unicode Peg GoGrammar PegGrammar ActionsPinned Canon.
 Lemma canon_go_id : canon_go go_grammar = go_grammar.
 Proof. vm_compute. reflexivity. Qed.
 Lemma canon_peg_id : canon_peg peg_grammar = peg_grammar.
